@@ -7,6 +7,20 @@ import sys
 from types import SimpleNamespace
 
 
+import logging
+
+LOGS = []
+
+
+class _Cap(logging.Handler):
+    def emit(self, record):
+        LOGS.append(record)
+
+
+logging.getLogger("custom_components.pyscript").addHandler(_Cap())
+logging.getLogger("custom_components.pyscript").setLevel(logging.DEBUG)
+
+
 def stub_hass(loop):
     from custom_components.pyscript.const import DOMAIN, CONFIG_ENTRY
     listeners = {}
@@ -30,7 +44,9 @@ def stub_hass(loop):
         services.pop((domain, service), None)
 
     svc = SimpleNamespace(async_register=async_register, async_remove=async_remove, table=services,
-                          has_service=lambda d, s: (d, s) in services, calls=[])
+                          has_service=lambda d, s: (d, s) in services, calls=[],
+                          supports_response=lambda d, s: "none", async_services=lambda: {},
+                          async_services_for_domain=lambda d: {})
     hass = SimpleNamespace(data={DOMAIN: {CONFIG_ENTRY: SimpleNamespace(data={})}}, loop=loop, services=svc,
                            states=SimpleNamespace(table=states), bus=bus,
                            async_create_task=lambda c: loop.create_task(c),
@@ -53,6 +69,51 @@ async def boot(legacy=False):
     State.init(hass)
     Event.init(hass)
     return hass
+
+
+async def boot_full(legacy=False, allow_all_imports=False):
+    """Everything needed to run script source through the real interpreter and decorator subsystems."""
+    hass = await boot()
+    from custom_components.pyscript.const import DOMAIN, CONFIG_ENTRY
+    from custom_components.pyscript.function import Function
+    from custom_components.pyscript.state import State
+    from custom_components.pyscript.trigger import TrigTime
+    from custom_components.pyscript.global_ctx import GlobalContextMgr
+    from custom_components.pyscript.decorator import DecoratorRegistry
+    hass.data[DOMAIN][CONFIG_ENTRY] = SimpleNamespace(data={"allow_all_imports": allow_all_imports,
+                                                            "legacy_decorators": legacy})
+    State.register_functions()
+    TrigTime.init(hass)
+    try:
+        GlobalContextMgr.init()
+    except Exception:  # noqa
+        pass
+    DecoratorRegistry.init(hass, SimpleNamespace(data={"legacy_decorators": legacy}))
+    return hass
+
+
+async def run_source(ctx_name, source, global_ctx=None, sym=None):
+    from custom_components.pyscript.eval import AstEval
+    from custom_components.pyscript.function import Function
+    from custom_components.pyscript.global_ctx import GlobalContext, GlobalContextMgr
+    if global_ctx is None:
+        global_ctx = GlobalContext(ctx_name, global_sym_table={"__name__": ctx_name}, manager=GlobalContextMgr)
+        GlobalContextMgr.set(ctx_name, global_ctx)
+        global_ctx.set_auto_start(True)
+    ast_ctx = AstEval(ctx_name, global_ctx=global_ctx)
+    Function.install_ast_funcs(ast_ctx)
+    ast_ctx.parse(source)
+    exc = None
+    try:
+        await ast_ctx.eval(sym or {})
+    except Exception as e:  # noqa
+        exc = e
+    return global_ctx, ast_ctx, exc
+
+
+async def settle(n=5):
+    for _ in range(n):
+        await asyncio.sleep(0)
 
 
 async def shutdown():
@@ -95,6 +156,95 @@ async def c13_ctx_collision(w):
     reproduced = "a-cancelled" in log
     return {"reproduced": reproduced, "observed": log,
             "expected": "task of context %r keeps running: contexts %r and %r are different" % (w["ctx1"], w["ctx1"], w["ctx2"])}
+
+
+async def c12_duplicate_service_name(w):
+    """@service with the same name listed twice in ONE decorator; then the function is deleted.
+    Property: the service is registered exactly while a live function declares it."""
+    from custom_components.pyscript.function import Function
+    out = {}
+    for legacy in (True,):
+        hass = await boot_full(legacy=legacy)
+        src = '@service("pyscript.dup", "pyscript.dup")\ndef f():\n    pass\n'
+        gctx, actx, exc = await run_source("file.dupdemo", src)
+        await settle()
+        during = hass.services.has_service("pyscript", "dup")
+        g2, a2, exc2 = await run_source("file.dupdemo", "del f\n", global_ctx=gctx)
+        await settle(10)
+        import gc
+        gc.collect()
+        await settle(10)
+        after = hass.services.has_service("pyscript", "dup")
+        out["legacy" if legacy else "new"] = {"registered_while_declared": during, "registered_after_delete": after,
+                                             "exc": repr(exc), "exc2": repr(exc2),
+                                             "service_cnt": dict(Function.service_cnt)}
+        await shutdown()
+    rep = any(v["registered_while_declared"] and v["registered_after_delete"] for v in out.values())
+    return {"reproduced": rep, "observed": out, "expected": "pyscript.dup is not registered after its only function is deleted"}
+
+
+async def c12_owner_is_evaluator_name(w):
+    """New subsystem: a @service function redefined from inside a function of the SAME global context."""
+    hass = await boot_full(legacy=False)
+    src = ('@service("pyscript.redef")\ndef f():\n    pass\n\n'
+           'def redefine():\n    global f\n    @service("pyscript.redef")\n    def f():\n        return 2\n')
+    gctx, actx, exc = await run_source("file.owner", src)
+    await settle(10)
+    from custom_components.pyscript.eval import AstEval
+    from custom_components.pyscript.function import Function
+    # call redefine() from an evaluator whose name differs from the global context name (as trigger/service runs do)
+    actx2 = AstEval("file.owner.redefine", global_ctx=gctx)
+    Function.install_ast_funcs(actx2)
+    actx2.parse("redefine()\n")
+    err = None
+    try:
+        await actx2.eval({})
+    except Exception as e:  # noqa
+        err = e
+    await settle(10)
+    import gc
+    gc.collect()
+    await settle(10)
+    owner = dict(Function.service2global_ctx)
+    still = hass.services.has_service("pyscript", "redef")
+    logs = [r.getMessage() for r in LOGS if "already defined" in r.getMessage()]
+    await shutdown()
+    rep = (err is not None and "already defined" in str(err)) or bool(logs) or not still
+    return {"reproduced": rep, "observed": {"error": repr(err), "owners": owner, "service_registered_after_redefinition": still,
+                                            "log": logs[:2]},
+            "expected": "redefinition inside the same global context file.owner is accepted (same owner)"}
+
+
+async def c12_outgoing(w):
+    """service.call / domain.service() with control-keyword look-alikes; data delivered must equal the given kwargs
+    minus control keywords of the recognised type."""
+    from homeassistant.core import Context
+    from custom_components.pyscript.function import Function
+    hass = await boot()
+    seen = []
+
+    async def async_call(domain, service, data=None, **hargs):
+        seen.append((domain, service, dict(data), dict(hargs)))
+        return None
+
+    hass.services.async_call = async_call
+    hass.services.has_service = lambda d, s: True
+    hass.services.supports_response = lambda d, s: "none"
+    kwargs = {"entity_id": "light.x", "brightness": 7}
+    expect = dict(kwargs)
+    for key, kind in w["kinds"].items():
+        if kind == "right-type":
+            kwargs[key] = Context() if key == "context" else True
+        elif kind == "wrong-type":
+            kwargs[key] = "a-string"
+            expect[key] = "a-string"
+    if w["entry"] == "service_call":
+        await Function.service_call("light", "turn_on", **kwargs)
+    else:
+        await Function.get("light.turn_on")(**kwargs)
+    await shutdown()
+    got = seen[0][2] if seen else None
+    return {"reproduced": got != expect, "observed": {"service_data": got}, "expected": {"service_data": expect}}
 
 
 SCENARIOS = {k: v for k, v in list(globals().items()) if asyncio.iscoroutinefunction(v) and k[0] == "c"}
